@@ -153,7 +153,7 @@ def extract():
     def prange(case, var):
         return two(fmt, r"case '%s':(?:\s*case '\w':)*\s*(?://[^\n]*\n\s*)*data = ParseInt\(data, \d+, (-?\d+), (-?\d+), &%s\)" % (case, var), case)
     put("src_parse_range_m", lambda: prange("m", r"tm\.tm_mon"))
-    put("src_parse_range_d", lambda: two(fmt, r"case 'd':\s*case 'e':\s*data = ParseInt\(data, \d+, (-?\d+), (-?\d+), &tm\.tm_mday\)", "d"))
+    put("src_parse_range_d", lambda: two(fmt, r"case 'd':\s*case 'e':[^;]*?;\s*\} else \{\s*data = ParseInt\(data, \d+, (-?\d+), (-?\d+), &tm\.tm_mday\)", "d"))
     put("src_parse_range_H", lambda: prange("H", r"tm\.tm_hour"))
     put("src_parse_range_M", lambda: prange("M", r"tm\.tm_min"))
     put("src_parse_range_S", lambda: prange("S", r"tm\.tm_sec"))
